@@ -939,9 +939,18 @@ class HistogramBase(abc.ABC):
             else:
                 adapted_self = self + 0 * other
                 adapted_other = 0 * self + other
-                self.frequencies = adapted_self.frequencies - adapted_other.frequencies
-                self.errors2 = adapted_self.errors2 + adapted_other.errors2
-                self._missed -= other._missed
+                new_dtype = np.promote_types(self.dtype, other.dtype)
+                frequencies = (
+                    adapted_self.frequencies - adapted_other.frequencies
+                ).astype(new_dtype)
+                errors2 = (adapted_self.errors2 + adapted_other.errors2).astype(
+                    new_dtype
+                )
+                missed = (self._missed - other._missed).astype(new_dtype)
+                self._coerce_dtype(new_dtype)
+                self.frequencies = frequencies
+                self.errors2 = errors2
+                self._missed = missed
             self._stats = INVALID_STATISTICS
             return self
         array = np.asarray(other)
